@@ -50,7 +50,8 @@ Proof.
     destruct (member_paren m); cbn [paren].
     + cbn [app]. eexists. eexists. split; [apply lex_lparen|]. unfold type_start. cbn. tauto.
     + cbn [forallb] in Hdt. apply andb_true_iff in Hdt as [Hdm _].
-      cbn [map list_sum] in Hs. assert (Hm : tsize m <= n) by lia. apply (IH m Hm Hdm). reflexivity.
+      change (list_sum (map tsize (m :: m2 :: ts))) with (tsize m + list_sum (map tsize (m2 :: ts))) in Hs.
+      assert (Hm : tsize m <= n) by lia. apply (IH m Hm Hdm). reflexivity.
 Qed.
 
 Lemma first_token_bare t rest : doc_type t = true -> stop rest = true ->
@@ -125,3 +126,335 @@ Proof. kw_lex 101%N [110; 117; 109]%N. Qed.
 Lemma run_line fuel line s l' :
   parse_one_state fuel (St line) = POk s l' -> ann_parse_line fuel line = Ok (inl s).
 Proof. unfold ann_parse_line. intros ->. reflexivity. Qed.
+
+(* ------------------------------------------------------------------ helpers *)
+Lemma lak_At text l tk c :
+  At text l -> lex_token text = Ok (tk, c) ->
+  look_ahead_kind l = POk (tkind tk) (StA c tk) /\ At text (StA c tk).
+Proof.
+  intros Hat Hlex. split.
+  - apply lak_of. eapply At_la; eassumption.
+  - eapply la_At; [apply la_StA | exact Hlex].
+Qed.
+
+Lemma stop_comment c : stop (show_comment c) = true.
+Proof. destruct c; reflexivity. Qed.
+
+Lemma type_start_neq k : type_start k ->
+  k <> KEOF /\ k <> KAt /\ k <> KColon /\ k <> KOption /\ k <> KConst /\ k <> KEnum /\ k <> KComma.
+Proof. intros [->|[->|[->|[->|[->| ->]]]]]; repeat split; discriminate. Qed.
+
+Lemma fuel_of_app a b : fuel_of (a ++ b) = 6 * length a + fuel_of b.
+Proof. unfold fuel_of. rewrite app_length. lia. Qed.
+
+Lemma fuel_of_ge b : 24 <= fuel_of b.
+Proof. unfold fuel_of. lia. Qed.
+
+Lemma fuel_of_len b : 6 * length b + 24 = fuel_of b.
+Proof. reflexivity. Qed.
+
+(* parserOneType at a last position, from a state positioned before a blank *)
+Lemma one_type_last_sp t c f :
+  doc_type t = true -> 2 * length (shw t) + 18 <= f ->
+  exists tk rest', parse_one_type f (St (32%N :: shw t ++ show_comment c)) = POk (embed_one t) (StA rest' tk) /\
+                   (tkind tk = KEOF \/ tkind tk = KAt) /\ get_comment (StA rest' tk) = comment_of c.
+Proof. intros Hd Hf. apply one_type_last; [exact Hd | apply At_sp | exact Hf]. Qed.
+
+(* ------------------------------------------------------------------ vararg *)
+Lemma stat_vararg t c : doc_type t = true ->
+  exists l', parse_one_state (fuel_of (show_line (DSVararg t c))) (St (show_line (DSVararg t c)))
+             = POk (embed_stat (DSVararg t c)) l'.
+Proof.
+  intros Hd. unfold show_line. cbn [show_stat embed_stat].
+  set (fuel := fuel_of _).
+  assert (Hfuel : 2 * length (shw t) + 18 <= fuel).
+  { subst fuel. rewrite !fuel_of_app. pose proof (fuel_of_ge (show_comment c)). lia. }
+  unfold parse_one_state. rewrite (lak_St _ _ _ (lex_k_vararg _)). cbn [pbind tkind].
+  unfold parse_vararg_state. rewrite nok_StA by reflexivity. cbn [pbind].
+  destruct (one_type_last_sp t c fuel Hd Hfuel) as (tk & rest' & -> & _ & Hc). cbn [pbind].
+  rewrite Hc. eexists. reflexivity.
+Qed.
+
+(* ------------------------------------------------------------------ alias *)
+Lemma stat_alias n t c : doc_stat (DSAlias n t c) = true ->
+  exists l', parse_one_state (fuel_of (show_line (DSAlias n t c))) (St (show_line (DSAlias n t c)))
+             = POk (embed_stat (DSAlias n t c)) l'.
+Proof.
+  cbn [doc_stat]. intros Hd. apply andb_true_iff in Hd as [Hn Hd].
+  unfold show_line. cbn [show_stat embed_stat].
+  set (fuel := fuel_of _).
+  assert (Hfuel : 2 * length (shw t) + 18 <= fuel).
+  { subst fuel. rewrite !fuel_of_app. pose proof (fuel_of_ge (show_comment c)). lia. }
+  unfold parse_one_state. rewrite (lak_St _ _ _ (lex_k_alias _)). cbn [pbind tkind].
+  unfold parse_alias_state. rewrite nok_StA by reflexivity. cbn [pbind].
+  assert (Hname : lex_token (32%N :: n ++ [32%N] ++ shw t ++ show_comment c)
+                  = Ok (mkTok KIdent n, [32%N] ++ shw t ++ show_comment c)).
+  { rewrite lex_token_sp. apply lex_plain_name; [exact Hn | reflexivity]. }
+  rewrite (nok_St _ _ _ _ Hname) by reflexivity. cbn [pbind tstr].
+  destruct (first_token_bare t (show_comment c) Hd (stop_comment c)) as (tk1 & c1 & Hlex1 & Hts).
+  destruct (type_start_neq _ Hts) as (E1 & E2 & _).
+  cbn [app]. destruct (lak_At _ _ _ _ (At_sp _) Hlex1) as [-> Hat1]. cbn [pbind].
+  rewrite (kind_neq_false _ _ E1), (kind_neq_false _ _ E2).
+  destruct (one_type_last t c fuel _ Hd Hat1 Hfuel) as (tk & rest' & -> & _ & Hc). cbn [pbind].
+  rewrite Hc. eexists. reflexivity.
+Qed.
+
+(* ------------------------------------------------------------------ names that may be keywords *)
+Lemma kw_lookup_inv s k : kw_lookup s = Some k -> In (s, k) keyword_bytes.
+Proof. apply assoc_bytes_in. Qed.
+
+Ltac kw_cases H :=
+  apply kw_lookup_inv in H; unfold keyword_bytes in H;
+  repeat (destruct H as [H|H]; [inversion H; subst; clear H|]); try (destruct H).
+
+Lemma kw_const s : kw_lookup s = Some KConst -> s = s_const.
+Proof. intros H. kw_cases H. reflexivity. Qed.
+
+Lemma kw_scope s k : kw_lookup s = Some k -> (k = KPublic \/ k = KProtected \/ k = KPrivate) -> is_scope_word s = true.
+Proof. intros H Hk. kw_cases H; try reflexivity; destruct Hk as [Hk|[Hk|Hk]]; discriminate Hk. Qed.
+
+(* the token a name is lexed as *)
+Lemma lex_name n X : ident_shape n = true -> stop X = true ->
+  lex_token (n ++ X) = Ok (mkTok (match kw_lookup n with Some k => k | None => KIdent end) n, X).
+Proof.
+  intros Hn HX. destruct (ident_shape_inv _ Hn) as (b & r & -> & Hb & Hr). apply lex_word; assumption.
+Qed.
+
+Lemma nfn_word n X l :
+  ident_shape n = true -> stop X = true -> At (n ++ X) l -> next_field_name l = POk n (St X).
+Proof.
+  intros Hn HX Hat. pose proof (At_la _ _ _ _ Hat (lex_name n X Hn HX)) as Hl.
+  unfold next_field_name. rewrite (ntp_of _ _ _ Hl). cbn [pbind tkind tstr].
+  destruct (kw_lookup n) as [k|] eqn:Ek; [|reflexivity].
+  destruct (kind_eqb k KIdent); [reflexivity|].
+  unfold keyword_name. cbn [tstr tkind]. rewrite Ek, kind_eqb_refl. reflexivity.
+Qed.
+
+Lemma lex_param_name n X : param_name_ok n = true -> stop X = true ->
+  exists k, lex_token (n ++ X) = Ok (mkTok k n, X) /\
+            (k = KIdent \/ k = KVararg \/ kw_lookup n = Some k).
+Proof.
+  intros Hn HX. unfold param_name_ok in Hn. apply orb_true_iff in Hn as [Hn|Hn].
+  - rewrite (lex_name n X Hn HX). eexists. split; [reflexivity|].
+    destruct (kw_lookup n); [right; right; reflexivity | left; reflexivity].
+  - apply beq_bytes_eq in Hn. subst n. exists KVararg. split; [apply lex_dots | right; left; reflexivity].
+Qed.
+
+(* ------------------------------------------------------------------ param *)
+Lemma stat_param isc n opt t c : doc_stat (DSParam isc n opt t c) = true ->
+  exists l', parse_one_state (fuel_of (show_line (DSParam isc n opt t c))) (St (show_line (DSParam isc n opt t c)))
+             = POk (embed_stat (DSParam isc n opt t c)) l'.
+Proof.
+  cbn [doc_stat]. intros Hd. apply andb_true_iff in Hd as [Hd Hdt]. apply andb_true_iff in Hd as [Hn Hc0].
+  unfold show_line. cbn [show_stat embed_stat].
+  set (fuel := fuel_of _).
+  assert (Hfuel : 2 * length (shw t) + 18 <= fuel).
+  { subst fuel. rewrite !fuel_of_app. pose proof (fuel_of_ge (show_comment c)). lia. }
+  unfold parse_one_state. rewrite (lak_St _ _ _ (lex_k_param _)). cbn [pbind tkind].
+  unfold parse_param_state. rewrite nok_StA by reflexivity. cbn [pbind].
+  set (X := (if opt then [63%N; 32%N] else [32%N]) ++ shw t ++ show_comment c).
+  assert (HX : stop X = true) by (subst X; destruct opt; reflexivity).
+  (* everything after the optional const *)
+  assert (Htail : forall isc0 l0, At (n ++ X) l0 ->
+            exists l',
+              (let* (name, l) := next_param_name l0 in
+               let* (k, l) := look_ahead_kind l in
+               let* (opt0, l) := (if kind_eqb k KOption
+                                  then let* (_, l) := next_token_p l in POk true l else POk false l) in
+               let* (t0, l) := parse_one_type fuel l in
+               POk (SParam isc0 opt0 name t0 (get_comment l)) l)
+              = POk (SParam isc0 opt n (embed_one t) (comment_of c)) l').
+  { intros isc0 l0 Hat0. rewrite (npn_word n X l0 Hn HX Hat0). cbn [pbind]. subst X.
+    destruct opt; cbn [app].
+    - rewrite (lak_St _ _ _ (lex_option _)). cbn [pbind tkind]. kcomp. rewrite ntp_StA. cbn [pbind].
+      destruct (one_type_last_sp t c fuel Hdt Hfuel) as (tk & rest' & -> & _ & Hc). cbn [pbind].
+      rewrite Hc. eexists. reflexivity.
+    - destruct (first_token_bare t (show_comment c) Hdt (stop_comment c)) as (tk1 & c1 & Hlex1 & Hts).
+      destruct (type_start_neq _ Hts) as (_ & _ & _ & E4 & _).
+      destruct (lak_At _ _ _ _ (At_sp _) Hlex1) as [-> Hat1]. cbn [pbind]. rewrite (kind_neq_false _ _ E4).
+      cbn [pbind].
+      destruct (one_type_last t c fuel _ Hdt Hat1 Hfuel) as (tk & rest' & -> & _ & Hc). cbn [pbind].
+      rewrite Hc. eexists. reflexivity. }
+  destruct (lex_param_name n X Hn HX) as (k & Hk & Hkc).
+  destruct isc; cbn [app].
+  - assert (H1 : lex_token (32%N :: k_const ++ n ++ X) = Ok (mkTok KConst [99; 111; 110; 115; 116]%N, 32%N :: n ++ X))
+      by (rewrite lex_token_sp; apply lex_k_const).
+    rewrite (lak_St _ _ _ H1). cbn [pbind tkind]. kcomp. rewrite nok_StA by reflexivity. cbn [pbind].
+    apply Htail. apply At_sp.
+  - assert (H1 : lex_token (32%N :: n ++ X) = Ok (mkTok k n, X)) by (rewrite lex_token_sp; exact Hk).
+    rewrite (lak_St _ _ _ H1). cbn [pbind tkind].
+    assert (Hnc : kind_eqb k KConst = false).
+    { apply kind_neq_false. intros ->. cbn [orb] in Hc0. apply negb_true_iff in Hc0.
+      destruct Hkc as [Hk1|[Hk1|Hk1]]; try discriminate Hk1.
+      apply kw_const in Hk1. subst n. discriminate Hc0. }
+    rewrite Hnc. cbn [pbind].
+    apply Htail. eapply la_At; [apply la_StA | exact Hk].
+Qed.
+
+(* ------------------------------------------------------------------ field *)
+Lemma lex_scope_word k X : (k <=? 2)%N = true ->
+  exists kd s, lex_token (32%N :: show_scope (Some k) ++ X) = Ok (mkTok kd s, 32%N :: X) /\
+               (kind_eqb kd KPublic || kind_eqb kd KProtected || kind_eqb kd KPrivate) = true /\
+               (if kind_eqb kd KProtected then 1%N else if kind_eqb kd KPrivate then 2%N else 0%N) = k.
+Proof.
+  intros Hk. rewrite lex_token_sp. unfold show_scope.
+  assert (Hc : k = 0%N \/ k = 1%N \/ k = 2%N) by lia.
+  destruct Hc as [->|[->| ->]]; cbn [N.eqb Pos.eqb]; rewrite <- app_assoc.
+  - exists KPublic. eexists. split; [apply (lex_word 112%N [117; 98; 108; 105; 99]%N (32%N :: X)); reflexivity|].
+    split; reflexivity.
+  - exists KProtected. eexists.
+    split; [apply (lex_word 112%N [114; 111; 116; 101; 99; 116; 101; 100]%N (32%N :: X)); reflexivity|].
+    split; reflexivity.
+  - exists KPrivate. eexists.
+    split; [apply (lex_word 112%N [114; 105; 118; 97; 116; 101]%N (32%N :: X)); reflexivity|].
+    split; reflexivity.
+Qed.
+
+Lemma stat_field sc colon n t c : doc_stat (DSField sc colon n t c) = true ->
+  exists l', parse_one_state (fuel_of (show_line (DSField sc colon n t c))) (St (show_line (DSField sc colon n t c)))
+             = POk (embed_stat (DSField sc colon n t c)) l'.
+Proof.
+  cbn [doc_stat]. intros Hd. apply andb_true_iff in Hd as [Hd Hsc]. apply andb_true_iff in Hd as [Hn Hdt].
+  unfold show_line. cbn [show_stat embed_stat].
+  set (fuel := fuel_of _).
+  assert (Hfuel : 2 * length (shw t) + 18 <= fuel).
+  { subst fuel. rewrite !fuel_of_app. pose proof (fuel_of_ge (show_comment c)). lia. }
+  unfold parse_one_state. rewrite (lak_St _ _ _ (lex_k_field _)). cbn [pbind tkind].
+  unfold parse_field_state. rewrite nok_StA by reflexivity. cbn [pbind].
+  set (X := (if colon then k_sp_colon_sp else [32%N]) ++ shw t ++ show_comment c).
+  assert (HX : stop X = true) by (subst X; destruct colon; reflexivity).
+  assert (Htail : forall sc0 l0, At (n ++ X) l0 ->
+            exists l',
+              (let* (name, l) := next_field_name l0 in
+               let* (k, l) := look_ahead_kind l in
+               let* (colon0, l) := (if kind_eqb k KColon
+                                    then let* (_, l) := next_token_p l in POk 1%N l else POk 0%N l) in
+               let* (t0, l) := parse_one_type fuel l in
+               POk (SField sc0 colon0 name t0 (get_comment l)) l)
+              = POk (SField sc0 (if colon then 1%N else 0%N) n (embed_one t) (comment_of c)) l').
+  { intros sc0 l0 Hat0. rewrite (nfn_word n X l0 Hn HX Hat0). cbn [pbind]. subst X.
+    destruct colon; cbn [app].
+    - unfold k_sp_colon_sp. cbn [app].
+      assert (H1 : lex_token (32%N :: 58%N :: 32%N :: shw t ++ show_comment c)
+                   = Ok (mkTok KColon [58%N], 32%N :: shw t ++ show_comment c))
+        by (rewrite lex_token_sp; apply lex_colon).
+      rewrite (lak_St _ _ _ H1). cbn [pbind tkind]. kcomp. rewrite ntp_StA. cbn [pbind].
+      destruct (one_type_last_sp t c fuel Hdt Hfuel) as (tk & rest' & -> & _ & Hc). cbn [pbind].
+      rewrite Hc. eexists. reflexivity.
+    - destruct (first_token_bare t (show_comment c) Hdt (stop_comment c)) as (tk1 & c1 & Hlex1 & Hts).
+      destruct (type_start_neq _ Hts) as (_ & _ & E3 & _).
+      destruct (lak_At _ _ _ _ (At_sp _) Hlex1) as [-> Hat1]. cbn [pbind]. rewrite (kind_neq_false _ _ E3).
+      cbn [pbind].
+      destruct (one_type_last t c fuel _ Hdt Hat1 Hfuel) as (tk & rest' & -> & _ & Hc). cbn [pbind].
+      rewrite Hc. eexists. reflexivity. }
+  destruct sc as [k|].
+  - destruct (lex_scope_word k (n ++ X) Hsc) as (kd & s & Hlex & Hkd & Hval).
+    rewrite (lak_St _ _ _ Hlex). cbn [pbind tkind]. rewrite Hkd. rewrite ntp_StA. cbn [pbind]. rewrite Hval.
+    apply Htail. apply At_sp.
+  - cbn [show_scope app].
+    assert (H1 : lex_token (32%N :: n ++ X)
+                 = Ok (mkTok (match kw_lookup n with Some k => k | None => KIdent end) n, X))
+      by (rewrite lex_token_sp; apply lex_name; assumption).
+    rewrite (lak_St _ _ _ H1). cbn [pbind tkind].
+    assert (Hns : forall kd, kd = KPublic \/ kd = KProtected \/ kd = KPrivate ->
+                             kind_eqb (match kw_lookup n with Some k => k | None => KIdent end) kd = false).
+    { intros kd Hkd. apply kind_neq_false. intros E. destruct (kw_lookup n) as [k|] eqn:Ek.
+      - subst k. rewrite (kw_scope n kd Ek Hkd) in Hsc. discriminate Hsc.
+      - destruct Hkd as [->|[->| ->]]; discriminate E. }
+    rewrite (Hns KPublic), (Hns KProtected), (Hns KPrivate) by tauto. cbn [orb pbind].
+    apply Htail. eapply la_At; [apply la_StA | apply lex_name; assumption].
+Qed.
+
+(* ------------------------------------------------------------------ overload *)
+Lemma doc_fun_claims ps rs : doc_type (DFun ps rs) = true -> Forall PClaim ps /\ Forall ClaimC rs.
+Proof.
+  cbn [doc_type]. intros Hd. apply andb_true_iff in Hd as [Hdp Hdr]. split.
+  - apply Forall_forall. intros [[pn po] pot] Hin. rewrite forallb_forall in Hdp. specialize (Hdp _ Hin).
+    cbn [doc_param] in Hdp. apply andb_true_iff in Hdp as [Hpn Hpt]. split; [exact Hpn|].
+    destruct pot as [pt|]; [apply claimC_all; exact Hpt | exact I].
+  - apply Forall_forall. intros r Hin. rewrite forallb_forall in Hdr. apply claimC_all. apply Hdr. exact Hin.
+Qed.
+
+Lemma stat_overload ps rs c : doc_stat (DSOverload ps rs c) = true ->
+  exists l', parse_one_state (fuel_of (show_line (DSOverload ps rs c))) (St (show_line (DSOverload ps rs c)))
+             = POk (embed_stat (DSOverload ps rs c)) l'.
+Proof.
+  cbn [doc_stat]. intros Hd. destruct (doc_fun_claims ps rs Hd) as [HP HR].
+  unfold show_line. cbn [show_stat embed_stat].
+  set (fuel := fuel_of _).
+  assert (Hfuel : 2 * length (shw (DFun ps rs)) + 12 <= fuel).
+  { subst fuel. rewrite !fuel_of_app. pose proof (fuel_of_ge (show_comment c)). lia. }
+  unfold parse_one_state. rewrite (lak_St _ _ _ (lex_k_overload _)). cbn [pbind tkind].
+  unfold parse_overload_state. rewrite nok_StA by reflexivity. cbn [pbind].
+  destruct (comment_fol c) as (tk & rest' & Hfol & Hk & Hc).
+  destruct (tail_kind_facts _ Hk) as ((K1 & K2 & K3) & Kc & Kcm & _ & _).
+  rewrite (fun_type_rt ps rs HP HR fuel _ (show_comment c) tk rest' (At_sp _) Hfol K3 Kc Kcm K2 K1 Hfuel).
+  cbn [pbind]. rewrite Hc. eexists. reflexivity.
+Qed.
+
+(* ------------------------------------------------------------------ enum (without comment) *)
+Lemma stat_enum st :
+  exists l', parse_one_state (fuel_of (show_line (DSEnum st None))) (St (show_line (DSEnum st None)))
+             = POk (embed_stat (DSEnum st None)) l'.
+Proof. destruct st; eexists; vm_compute; reflexivity. Qed.
+
+(* ------------------------------------------------------------------ class *)
+Lemma lex_sp_colon X : lex_token (k_sp_colon_sp ++ X) = Ok (mkTok KColon [58%N], 32%N :: X).
+Proof. reflexivity. Qed.
+
+Lemma class_loop ps cname c : ps <> [] ->
+  Forall (fun p => ident_shape p = true /\ beq_bytes p cname = false) ps ->
+  forall f acc l,
+    At (join t_comma ps ++ show_comment c) l -> length ps + 1 <= f ->
+    exists tk rest', class_parents_loop f cname acc l = POk (acc ++ ps) (StA rest' tk) /\
+                     get_comment (StA rest' tk) = comment_of c.
+Proof.
+  induction ps as [|p ps IH]; [congruence|]. intros _ HF f acc l Hat Hf.
+  inversion HF as [|? ? [Hp Hne] HF']; subst.
+  destruct f as [|f]; [cbn in Hf; lia|]. cbn [class_parents_loop].
+  destruct ps as [|p2 ps].
+  - cbn [join] in Hat. rewrite (nfn_word p _ l Hp (stop_comment c) Hat). cbn [pbind]. rewrite Hne.
+    destruct (comment_fol c) as (tk & rest' & [Hlex Hstop] & Hk & Hc).
+    destruct (tail_kind_facts _ Hk) as (_ & _ & Kcm & _).
+    rewrite (lak_St _ _ _ Hlex). cbn [pbind]. rewrite (kind_neq_false _ _ Kcm).
+    exists tk, rest'. split; [reflexivity | exact Hc].
+  - rewrite join_cons2 in Hat. rewrite <- !app_assoc in Hat.
+    pose proof (fun HX => nfn_word p _ l Hp HX Hat) as Hnfn. rewrite Hnfn by reflexivity. clear Hnfn.
+    cbn [pbind]. rewrite Hne.
+    destruct (fol_comma (join t_comma (p2 :: ps) ++ show_comment c)) as [Hlex _].
+    rewrite (lak_St _ _ _ Hlex). cbn [pbind tkind]. kcomp. rewrite nok_StA by reflexivity. cbn [pbind].
+    destruct (IH ltac:(discriminate) HF' f (acc ++ [p]) _ (At_sp _) ltac:(cbn [length] in *; lia))
+      as (tk & rest' & -> & Hc).
+    exists tk, rest'. rewrite <- app_assoc. split; [reflexivity | exact Hc].
+Qed.
+
+Lemma stat_class n ps c : doc_stat (DSClass n ps c) = true ->
+  exists l', parse_one_state (fuel_of (show_line (DSClass n ps c))) (St (show_line (DSClass n ps c)))
+             = POk (embed_stat (DSClass n ps c)) l'.
+Proof.
+  cbn [doc_stat]. intros Hd. apply andb_true_iff in Hd as [Hn Hps].
+  unfold show_line. cbn [show_stat embed_stat].
+  set (fuel := fuel_of _).
+  unfold parse_one_state. rewrite (lak_St _ _ _ (lex_k_class _)). cbn [pbind tkind].
+  unfold parse_class_state. rewrite nok_StA by reflexivity. cbn [pbind].
+  set (X := (if is_nil ps then [] else k_sp_colon_sp ++ join t_comma ps) ++ show_comment c).
+  assert (HX : stop X = true) by (subst X; destruct (is_nil ps); [apply stop_comment | reflexivity]).
+  rewrite (nfn_word n X _ Hn HX (At_sp _)). cbn [pbind]. subst X.
+  destruct ps as [|p ps]; cbn [is_nil app].
+  - destruct (comment_fol c) as (tk & rest' & [Hlex Hstop] & Hk & Hc).
+    destruct (tail_kind_facts _ Hk) as (_ & Kc & _).
+    rewrite (lak_St _ _ _ Hlex). cbn [pbind]. rewrite (kind_neq_false _ _ Kc). cbn [pbind].
+    rewrite Hc. eexists. reflexivity.
+  - rewrite <- !app_assoc. rewrite (lak_St _ _ _ (lex_sp_colon _)). cbn [pbind tkind]. kcomp.
+    rewrite nok_StA by reflexivity. cbn [pbind].
+    assert (HF : Forall (fun q => ident_shape q = true /\ beq_bytes q n = false) (p :: ps)).
+    { apply Forall_forall. intros q Hin. rewrite forallb_forall in Hps. specialize (Hps _ Hin).
+      apply andb_true_iff in Hps as [H1 H2]. apply negb_true_iff in H2. split; assumption. }
+    destruct (class_loop (p :: ps) n c ltac:(discriminate) HF fuel [] _ (At_sp _)) as (tk & rest' & -> & Hc).
+    { subst fuel. rewrite !fuel_of_app. rewrite <- fuel_of_len.
+      assert (length (p :: ps) <= length (join t_comma (p :: ps)) + 1).
+      { clear. induction ps as [|q ps IH] in p |- *; [cbn [length join]; lia|].
+        rewrite join_cons2, !app_length. specialize (IH q). change (length t_comma) with 2. cbn [length] in *. lia. }
+      cbn [is_nil]. rewrite app_length. lia. }
+    cbn [pbind app]. rewrite Hc. eexists. reflexivity.
+Qed.
